@@ -14,6 +14,14 @@ TRUSTED = [
     "to 1e-12 relative); list.sort on floats = ascending insertion sort",
     "operations on an accountant are: constructor (with prior spends), spend, check, slack setter, total, remaining, "
     "len, spent_budget (copy) — name-mangled private attributes are not 'reachable by a caller'",
+    "static control-flow tie of check / spend / slack setter (harness/translate/accountantir.py -> DPL/Generated/"
+    "C04Methods.lean): read from the source are the order of statements, every guard (atoms, comparison, connective), the "
+    "arguments of total(), what is raised / appended / assigned and where the method returns; taken from the MODEL are "
+    "check_epsilon_delta (checkEpsDelta) and the arithmetic of total() (totalCore/mkBudget; its header - which arguments "
+    "are validated - is AccIR.totalOf, hand-written). Trusted: Budget(self.epsilon, self.delta) does not raise (ceilings "
+    "validated by the constructor), float(x) is the identity on the carrier, a >= b is b <= a, a total() call inside a "
+    "single-comparison guard is evaluated before the comparison, the return value of check is not used (only whether it "
+    "raises), exceptions map to ValueError/BudgetError/TypeError by class NAME",
 ]
 UNPROVED = [
     "that the exact-arithmetic total of the recorded spends exceeds the ceiling by at most 1e-12 relative is checked on "
@@ -616,6 +624,15 @@ def generate(ctx):
     import os
     from ..shim import REPO
     from ..translate.formulas import Anchors
+    # control-flow tie (harness/translate/accountantir.py): the bodies of check / spend / the slack setter as IR terms,
+    # proved to be the model's `Acc.step` by the scripts of DPL/Proofs/AccountantIR.lean.  A body the translator does not
+    # understand is an unavailable static tie (never a violation, never a crash).
+    from ..translate import accountantir
+    try:
+        methods = accountantir.generate(REPO, leanio.LEAN)
+    except accountantir.TranslatorError as e:
+        methods = {"build": [], "obligations": 0, "unavailable": [str(e)]}
+    ctx.count("method_bodies_translated", len(methods.get("bodies", ())))
     A = Anchors(REPO)
     f, q = "diffprivlib/accountant.py", "BudgetAccountant.total"
     e_sum = A.to_lean(A.find(f, q, aug_target="epsilon_sum"), {"epsilon": "e"})
@@ -686,7 +703,10 @@ end DPL.Gen.Accountant
         with open(GEN_PATH, "w") as fh:
             fh.write(src)
     ctx.count("formula_anchors", 7)
-    return {"build": ["DPL.Generated.AccountantFormulas"], "obligations": 5}
+    out = {"build": ["DPL.Generated.AccountantFormulas"] + methods["build"], "obligations": 5 + methods["obligations"]}
+    if methods["unavailable"]:
+        out["unavailable"] = ["accountant method IR: " + u for u in methods["unavailable"]]
+    return out
 
 
 def ast_IfExp():
